@@ -392,6 +392,9 @@ func c09Bulk(w *mon.W, part, parts int) {
 	for i := 0; i < 10; i++ {
 		data = append(data, hostileValue(r, 3).Node())
 	}
+	long := "漢字かな交じり文のとても長い文字列、三十二文字を超える長さにするための追加のテキストです。"
+	data = append(data, ref.Str(long).Node(), ref.Map(ref.E("a", ref.Str(long)), ref.E("foo", ref.List(ref.Str(long+long))), ref.E("b", ref.Bytes(bytes.Repeat([]byte{0xe6}, 100)))).Node(),
+		ref.List(ref.Str(long), ref.Str(strings.Repeat("é", 90))).Node())
 	data = append(data, ref.Map(ref.E("a", ref.Uint(math.MaxUint64)), ref.E("b", ref.List(ref.Uint(1<<63), ref.Float(math.NaN())))).Node(), ref.Uint(1<<63).Node(), ref.Null().Node())
 
 	// valid artefacts as mutation seeds
@@ -415,7 +418,7 @@ func c09Bulk(w *mon.W, part, parts int) {
 			}
 		}
 	}
-	set := makeSealedSet(w, 3, 20)
+	set := makeSealedSet(w, 3, 20, true)
 	wr := container.NewWriter()
 	for _, t := range set {
 		wr.AddSealed(t.cid, t.sealed)
@@ -458,6 +461,36 @@ func c09Bulk(w *mon.W, part, parts int) {
 		default:
 			c.call("policy.FromDagJson", "random", b, func() { _, _ = policy.FromDagJson(string(b)) })
 		}
+	}
+
+	// selectors with slices / indexes of every size class against the whole data corpus
+	for i := 0; i < share(w.Pick(1500, 30000)); i++ {
+		var segs ref.Sel
+		for k := 0; k < 1+r.IntN(3); k++ {
+			switch r.IntN(5) {
+			case 0:
+				segs = append(segs, ref.Seg{Kind: ref.SField, Name: gen.Pick(r, []string{"a", "b", "foo"}), Opt: r.IntN(3) == 0})
+			case 1:
+				segs = append(segs, ref.Seg{Kind: ref.SIndex, Idx: gen.Pick(r, []int64{0, 1, -1, 40, 99, 100, -100, 1 << 40}), Opt: r.IntN(3) == 0})
+			case 2:
+				segs = append(segs, ref.Seg{Kind: ref.SIter})
+			default:
+				sg := ref.Seg{Kind: ref.SSlice}
+				if r.IntN(3) > 0 {
+					sg.Lo = ref.I64(gen.Pick(r, []int64{0, 1, -1, 30, 44, 45, 100, -100, 131, 132, 1 << 40, -(1 << 40)}))
+				}
+				if r.IntN(3) > 0 || sg.Lo == nil {
+					sg.Hi = ref.I64(gen.Pick(r, []int64{0, 1, -1, 30, 44, 45, 100, -100, 131, 132, 133, 1 << 40, -(1 << 40)}))
+				}
+				segs = append(segs, sg)
+			}
+		}
+		txt := segs.Text()
+		w.Distinct(txt)
+		c.selectorEntries("slices-on-corpus", txt, data)
+		// and through a policy
+		pv := ref.Policy{{Kind: "==", Sel: segs, Val: ref.Str("x")}, {Kind: "like", Sel: segs, Pat: "*"}}.ToV()
+		c.policyNodeEntries("slices-on-corpus", pv, data, []byte(txt))
 	}
 
 	// ---- (b) mutants of valid artefacts
